@@ -203,6 +203,13 @@ def run_case(mod, spec):
     except HarnessError:
         raise
     except Exception as e:
+        if type(e).__name__ == "WorkBudgetExceeded":
+            # an adaptive third-party integrator collapsed its step size: bounded by a count of evaluations, the
+            # case decides nothing
+            res = Result()
+            res.inconclusive += 1
+            res.label("work_budget_exceeded")
+            return res
         fs = _repo_frame(e.__traceback__)
         if fs is None:
             raise
@@ -543,9 +550,18 @@ def main(argv=None):
     if nshards == 1:
         outs = [run_shard(jobs[0])]
     else:
+        # ProcessPoolExecutor rather than mp.Pool: when a worker process dies (out of memory, a crash in native code)
+        # the executor raises BrokenProcessPool, whereas Pool.map would wait for the lost shard for ever
+        from concurrent.futures import ProcessPoolExecutor
+        from concurrent.futures.process import BrokenProcessPool
+
         ctx = mp.get_context("fork")
-        with ctx.Pool(min(nshards, int(os.environ.get("VERIF_JOBS", "16")))) as pool:
-            outs = pool.map(run_shard, jobs, chunksize=1)
+        try:
+            with ProcessPoolExecutor(min(nshards, int(os.environ.get("VERIF_JOBS", "16"))), mp_context=ctx) as pool:
+                outs = list(pool.map(run_shard, jobs))
+        except BrokenProcessPool:
+            print(f"HARNESS-ERROR property={prop} a worker process died; no verdict")
+            return 2
     for o in outs:
         if "harness_error" in o:
             print(o["harness_error"])
